@@ -1532,6 +1532,10 @@ def rule_round5(repo, rep):
     from ..exprnorm import comparison
 
     rule_conditionally_assigned(repo, rep)
+    rule_none_to_dereferencing_method(repo, rep)
+    rule_quant_field_subscript(repo, rep)
+    rule_cross_indexed_operands(repo, rep)
+    rule_axis_normalisation(repo, rep)
     rule_constness_of_encoded_operands(repo, rep)
     rule_scalar_conversion(repo, rep)
     rep.clause("C13-s", "after a Reshape has been bypassed no later rewrite re-derives an operator's OFM shape from the re-shaped tensor (the command generators assert that IFM, IFM2 and OFM shapes of an "
@@ -1750,3 +1754,182 @@ def rule_constness_of_encoded_operands(repo, rep):
     if nblocks < 4:
         raise AnalysisError(f"only {nblocks} registration blocks with weight / bias constraints found")
     rep.floor("C13-m'", 4)
+
+
+def rule_axis_normalisation(repo, rep):
+    """(v) PACK / UNPACK: a negative axis is made positive by adding the number of positions the axis can take in the shape it is then used
+    on. Both rewrites build `S[:axis] + [1] + S[axis:]`; the result has rank(S) + 1 positions, so the term added is rank(S) + 1. With r the
+    rank of the operator's first input, rank(output) is r + 1 for PACK and r - 1 for UNPACK."""
+    from ..exprnorm import linear as _lin
+
+    rep.clause("C13-v", "PACK / UNPACK rewrites normalise a negative axis with the rank of the shape they index (rank(S) + 1 positions for the insertion S[:axis] + [1] + S[axis:])")
+    go = repo.mod("tflite_graph_optimiser")
+    n = 0
+    for fname, kind in (("rewrite_unpack_output", "Unpack"), ("rewrite_concat_ops", "Pack")):
+        fn = go.functions.get(fname)
+        if fn is None:
+            continue
+        out_delta = 1 if kind == "Pack" else -1
+        alias = {str(norm(st.targets[0])): str(norm(st.value)) for st in ast.walk(fn) if isinstance(st, ast.Assign) and len(st.targets) == 1 and isinstance(st.targets[0], ast.Name) and str(norm(st.value)) in ("op.outputs[0]", "op.inputs[0]", "op.ofm", "op.ifm")}
+
+        def rank_of(shape_txt):
+            base = shape_txt[:-len(".shape")] if shape_txt.endswith(".shape") else None
+            base = alias.get(base, base)
+            if base in ("op.inputs[0]", "op.ifm"):
+                return {"r": 1}
+            if base in ("op.outputs[0]", "op.ofm"):
+                return {"r": 1, "": out_delta}
+            return None
+
+        norms = [st for i_ in ast.walk(fn) if isinstance(i_, ast.If) and str(norm(i_.test)) in ("axis < 0", "0 > axis") for st in i_.body if isinstance(st, (ast.Assign, ast.AugAssign)) and str(norm(st.targets[0] if isinstance(st, ast.Assign) else st.target)) == "axis"]
+        inserts = [b for b in ast.walk(fn) if isinstance(b, ast.BinOp) and isinstance(b.op, ast.Add) and isinstance(b.left, ast.BinOp) and isinstance(b.left.left, ast.Subscript) and isinstance(b.right, ast.Subscript)
+                   and str(norm(b.left.right)) == "[1]" and str(norm(b.left.left.value)) == str(norm(b.right.value)) and "axis" in str(norm(b.left.left.slice))]
+        if not norms or not inserts:
+            continue
+        n += 1
+        st = norms[0]
+        added = st.value if isinstance(st, ast.AugAssign) else st.value
+        lf = _lin(added)
+        # replace len(X.shape) atoms by ranks
+        form = {}
+        okform = True
+        for k, v in lf.items():
+            if k in ("", "axis"):
+                if k == "":
+                    form[""] = form.get("", 0) + v
+                continue
+            if k.startswith("len(") and k.endswith(".shape)"):
+                rk = rank_of(k[4:-1])
+                if rk is None:
+                    okform = False
+                    continue
+                for kk, vv in rk.items():
+                    form[kk] = form.get(kk, 0) + v * vv
+            else:
+                okform = False
+        need = rank_of(str(norm(inserts[0].left.left.value)))
+        if not okform or need is None:
+            raise AnalysisError(f"{fname}: axis normalisation `{str(norm(st))}` / insertion `{str(norm(inserts[0]))}` not recognised")
+        need = dict(need)
+        need[""] = need.get("", 0) + 1
+        form = {k: v for k, v in form.items() if v}
+        need = {k: v for k, v in need.items() if v}
+        rep.check(form == need, "C13-v", f"ethosu/vela/tflite_graph_optimiser.py:{fname}", f"{kind}: the term added to a negative axis is rank(S) + 1 for the shape S of `{str(norm(inserts[0]))[:60]}`",
+                  f"`{str(norm(st))}` adds {form} (r = rank of the first input), the insertion has {need} positions: the last axis (-1) becomes an index one past the end "
+                  "(demonstrated: UNPACK with axis -1 on the NPU: IndexError in rewrite_split_ops)")
+    if n < 2:
+        raise AnalysisError(f"PACK / UNPACK axis normalisations: {n} found")
+    rep.floor("C13-v", 2)
+
+
+def rule_cross_indexed_operands(repo, rep):
+    """(w) a loop over the positions of one tensor that indexes the values of another operand needs that operand to be as long: guarded by a
+    comparison of the index with the operand's length (the reference semantics for STRIDED_SLICE: missing trailing entries mean the whole
+    dimension), or by a reviewed reason why the lengths agree."""
+    rep.clause("C13-w", "a loop over the rank of one tensor that indexes the values of another operand compares the index with that operand's length first (or the lengths agree for a reviewed reason)")
+    reviewed = {("operation", "Operation.get_split_inputs_axis", "size_tens.values[idx]"): "SLICE: TFLite itself rejects a model whose begin and size tensors differ in length (Prepare: NumElements(begin) == NumElements(size))"}
+    n = 0
+    for mn in ("tflite_model_semantic", "tflite_supported_operators", "operation", "tflite_graph_optimiser", "graph_optimiser_util"):
+        m = repo.mod(mn)
+        for q, fn in m.functions.items():
+            if "." in q and q.split(".")[0] in m.functions:
+                continue
+            for lp in ast.walk(fn):
+                if not (isinstance(lp, ast.For) and isinstance(lp.iter, ast.Call) and str(norm(lp.iter.func)) == "range" and lp.iter.args and "len(" in str(norm(lp.iter.args[-1])) and isinstance(lp.target, ast.Name)):
+                    continue
+                rng = str(norm(lp.iter.args[-1]))
+                for x in ast.walk(lp):
+                    if isinstance(x, ast.Subscript) and isinstance(x.slice, ast.Name) and x.slice.id == lp.target.id and str(norm(x.value)).endswith(".values") and isinstance(x.ctx, ast.Load):
+                        base = str(norm(x.value))
+                        if base[:-len(".values")] in rng:
+                            continue
+                        n += 1
+                        key = (mn, q, str(norm(x)))
+                        # guarded: an enclosing test (or a conjunct left of the access) compares the index with len(<operand>.values) / len(<operand>.shape)
+                        cur, guarded = x, False
+                        while cur is not lp and cur is not None:
+                            pp = m.parents.get(cur)
+                            tests = []
+                            if isinstance(pp, (ast.If, ast.IfExp)) and cur is not pp.test:
+                                tests.append(pp.test)
+                            if isinstance(pp, ast.BoolOp) and isinstance(pp.op, ast.And):
+                                tests.extend(v for v in pp.values if v is not cur)
+                            for t in tests:
+                                tt = str(norm(t))
+                                if f"{lp.target.id} < len({base})" in tt or f"len({base}) > {lp.target.id}" in tt or f"{lp.target.id} < len({base[:-7]}.shape" in tt:
+                                    guarded = True
+                            cur = pp
+                        if key in reviewed:
+                            rep.ok("C13-w", f"{m.rel}:{q}", f"`{key[2]}` in a loop over `{rng}` [reviewed: {reviewed[key]}]")
+                        else:
+                            rep.check(guarded, "C13-w", f"{m.rel}:{q}", f"`{str(norm(x))}` in a loop over `{rng}` is reached only for positions the operand has",
+                                      f"no comparison of `{lp.target.id}` with `len({base})`: an operand shorter than the rank raises IndexError "
+                                      "(demonstrated: STRIDED_SLICE of a rank-3 input with begin / end / strides of length 2: IndexError in _get_slice_offsets)")
+    rep.floor("C13-w", 2)
+
+
+def rule_quant_field_subscript(repo, rep):
+    """(x) the reader collapses a one-element quantisation vector to a scalar (len1_array_to_scalar): `scale_f32` / `zero_point` is an array only
+    for per-axis quantisation. A subscript of such a field is therefore made only where the field is known to be an array (a test on its
+    dimensionality / type guards it, or the value went through np.atleast_1d / np.broadcast_to / np.full)."""
+    rep.clause("C13-x", "scale_f32 / zero_point are subscripted only where they are known to be arrays (per-tensor quantisation is stored as a scalar)")
+    n = 0
+    for m in repo.core_modules():
+        if m.name.startswith("tosa_"):
+            continue
+        for q, fn in m.functions.items():
+            if "." in q and q.split(".")[0] in m.functions:
+                continue
+            for x in walk_no_nested(fn):
+                if not (isinstance(x, ast.Subscript) and isinstance(x.value, ast.Attribute) and x.value.attr in ("scale_f32", "zero_point") and isinstance(x.ctx, ast.Load)):
+                    continue
+                n += 1
+                base = str(norm(x.value))
+                cur, guarded = x, False
+                while cur is not fn and cur is not None:
+                    pp = m.parents.get(cur)
+                    if isinstance(pp, (ast.If, ast.IfExp)) and cur is not pp.test:
+                        t = str(norm(pp.test))
+                        in_body = (cur in pp.body) if isinstance(pp, ast.If) else (cur is pp.body)
+                        arr_true = any(k in t for k in (f"np.ndim({base}) > 0", f"np.ndim({base}) != 0", f"isinstance({base}, np.ndarray)", f"{base}.ndim > 0", f"np.size({base}) > 1", f"{base}.size > 1"))
+                        arr_false = any(k in t for k in (f"np.ndim({base}) == 0", f"np.isscalar({base})", f"not isinstance({base}, np.ndarray)"))
+                        if (arr_true and in_body) or (arr_false and not in_body):
+                            guarded = True
+                    cur = pp
+                rep.check(guarded, "C13-x", f"{m.rel}:{q}", f"`{str(norm(x))[:80]}` is evaluated only where `{base}` is an array",
+                          "no test of its dimensionality: for per-tensor quantisation the field is a NumPy scalar and the subscript raises `IndexError: invalid index to scalar variable` "
+                          "(demonstrated: grouped CONV_2D whose weights are quantised per tensor)")
+    rep.floor("C13-x", 1)
+
+
+def rule_none_to_dereferencing_method(repo, rep):
+    """(y) Operation.add_input_tensor / add_output_tensor / set_output_tensor dereference their tensor argument unconditionally: a call that passes the constant
+    None is a definite AttributeError on its path (an absent optional operand is appended to `inputs` directly)."""
+    rep.clause("C13-y", "the tensor-wiring methods of Operation that dereference their argument are never called with the constant None")
+    opm = repo.mod("operation")
+    deref = set()
+    for nm in ("add_input_tensor", "add_output_tensor", "set_output_tensor"):
+        fn = opm.functions.get(f"Operation.{nm}")
+        if fn is None:
+            raise AnalysisError(f"Operation.{nm} vanished")
+        p0 = fn.args.args[1].arg
+        guarded = any(isinstance(i, ast.If) and (f"{p0} is None" in str(norm(i.test)) or f"{p0} is not None" in str(norm(i.test)) or str(norm(i.test)) == p0) for i in ast.walk(fn))
+        uses = any(isinstance(a, ast.Attribute) and isinstance(a.value, ast.Name) and a.value.id == p0 for a in ast.walk(fn))
+        if uses and not guarded:
+            deref.add(nm)
+    if not deref:
+        raise AnalysisError("no dereferencing wiring method found in Operation")
+    n = 0
+    for m in repo.core_modules():
+        for c in ast.walk(m.tree):
+            if isinstance(c, ast.Call) and isinstance(c.func, ast.Attribute) and c.func.attr in deref and c.args:
+                n += 1
+                if isinstance(c.args[0], ast.Constant) and c.args[0].value is None:
+                    fn_ = m.enclosing_function(c)
+                    rep.bad("C13-y", f"{m.rel}:{m.qualname_of(fn_) if fn_ else '<module>'}", f"`{str(norm(c))}`",
+                            f"Operation.{c.func.attr} dereferences its argument: AttributeError whenever this statement is reached "
+                            "(demonstrated: grouped CONV_2D without a bias tensor: 'NoneType' object has no attribute 'consumer_list')")
+    rep.ok("C13-y", "ethosu/vela", f"{n} calls of {sorted(deref)} scanned")
+    rep.floor("C13-y", 1)
+    if n < 100:
+        raise AnalysisError(f"only {n} wiring calls found")
